@@ -9,9 +9,16 @@ VERIF = os.path.dirname(os.path.dirname(os.path.abspath(__file__)))
 p = os.path.join(VERIF, "DESIGN.md")
 s = open(p).read()
 rows, own, total, anyc = [], 0, 0, 0
+benign = []
 for d in sorted(glob.glob(os.path.join(VERIF, "seeded", "*"))):
     m = json.load(open(d + "/meta.json"))
     name = os.path.basename(d)
+    if m.get("benign"):
+        det = m.get("detected_by", {})
+        alarms = [c for c, v in det.items() if v["violations"] > 0 or v["rc"] not in (0,)]
+        summ = (m.get("summary") or "").replace("\n", " ").replace("|", "/")
+        benign.append("| %s | %s | %s | %s | %s |" % (name, m["property"], summ[:260], ", ".join(sorted(det)), ", ".join(alarms) or "none"))
+        continue
     det = m.get("detected_by", {})
     caught = [c for c, v in det.items() if v["violations"] > 0]
     missed = [c for c, v in det.items() if v["violations"] == 0]
@@ -34,5 +41,9 @@ head = "| seeded | written for | change | needs | caught by | run but not caught
 s = s[:i0] + head + "\n".join(rows) + "\n" + s[i1:]
 s = re.sub(r"^\d+ changes written by independent sub-agents", "%d changes written by independent sub-agents" % total, s, flags=re.M)
 s = re.sub(r"All \d+ are detected by at least one check, \d+ of them", "All %d are detected by at least one check, %d of them" % (anyc, own), s)
+if "| benign | written for | change | checks run against it | alarms |" in s:
+    j0 = s.index("| benign | written for | change | checks run against it | alarms |")
+    j1 = s.index("\n(end of the benign table)")
+    s = s[:j0] + "| benign | written for | change | checks run against it | alarms |\n|---|---|---|---|---|\n" + "\n".join(benign) + s[j1:]
 open(p, "w").write(s)
-print(total, anyc, own)
+print(total, anyc, own, len(benign))
